@@ -367,3 +367,31 @@ def native_playback(scratch, package, harness, test_code, timeout=1200, target_s
     return {'ran': bool(per_test), 'cmd': ' '.join(cmd), 'tests': per_test,
             'some_test_failed_natively': any(v == 'FAILED' for v in per_test.values()),
             'output_tail': out[-1500:]}
+
+
+def harness_stubs(harness_names):
+    """Mechanical scan of the harness files: which functions are replaced by stubs in which harness, and how many
+    kani::assume calls the file contains (every stub / assume is an assumption, not proof)."""
+    out = []
+    for f in sorted(os.listdir(os.path.join(ROOT, 'kani'))):
+        if not f.endswith('.rs'):
+            continue
+        text = open(os.path.join(ROOT, 'kani', f)).read()
+        lines = text.split('\n')
+        pending = []
+        for ln in lines:
+            st = ln.strip()
+            m = re.match(r'#\[kani::stub\(([^,]+),\s*([^)]+)\)\]', st)
+            if m:
+                pending.append('%s -> %s' % (m.group(1).strip(), m.group(2).strip()))
+                continue
+            m = re.match(r'(?:pub(?:\([a-z]+\))?\s+)?fn\s+(\w+)', st)
+            if m:
+                if m.group(1) in harness_names and pending:
+                    out.append('kani stubs in %s (%s): %s' % (m.group(1), f, '; '.join(pending)))
+                pending = []
+            elif st and not st.startswith('#[') and not st.startswith('//'):
+                pending = []
+        if any(re.search(r'\bfn\s+%s\b' % re.escape(h), text) for h in harness_names):
+            out.append('%s: %d kani::assume call(s) (input-domain constraints and the bounded stand-ins described in the harness comments)' % (f, len(re.findall(r'kani::assume\(', text))))
+    return out
